@@ -250,6 +250,15 @@ def check_pool_impl(ctx, facts, impl, prefix=MP, trait=TRAIT, rule='pool-sibling
             elif finite:
                 ctx.ok(rule, short + '::try_grow[limit]')
     else:
+        # a wrapper's own per-consumer tracking is symmetric: what grow / try_grow add to, shrink subtracts from
+        g = fields.get('grow', set()) | fields.get('try_grow', set())
+        sh = fields.get('shrink', set())
+        if g != sh:
+            bad += 1
+            ctx.fail(rule, short + '[tracking symmetric]', ctx.loc(info['grow'][0]), 'the wrapper adds to its own tracking counter(s) %s when memory is granted but subtracts from %s when it is '
+                     'returned: the per-consumer figures it reports drift away from what the consumers hold' % (sorted(g), sorted(sh) or 'nothing'), key='%s|%s|tracking-symmetric' % (rule, short))
+        elif g:
+            ctx.ok(rule, short + '[tracking symmetric]', sample={'impl': selfty, 'own_counters': sorted(g)})
         if 'reserved' in info:
             rec, outs = info['reserved'][0], info['reserved'][1]
             if not all(any(p[0] == 'reserved' for p in pool_calls(o, trait)) for o in outs):
